@@ -48,6 +48,9 @@ def run(prog, rep, tier):
     # slices are computed from the evaluated term data, labels from the components' remembered coding: the two agree (equal
     # in number, slices cover the columns) only while every component object belongs to one term (C06's R6.4), here R17.8
     shared.ownership_rule(prog, rep, "R17.8")
+    # "including when new groups widen the group matrix": the block is widened exactly when a row has no group at all, by one
+    # trailing column (C10's R10.5 / C05's R5.3 model of the new-group block), here R17.9
+    shared.new_group_block(prog, rep, "R17.9")
     rep.floor("R17.1", 18)
     rep.floor("R17.3", 8)
     rep.floor("R17.5", 10)
